@@ -81,4 +81,29 @@ theorem C17_wiring (a : ServerArgs) : (httpCfgOf a).cfg = ⟨a.snapshotDays, a.s
 example : rawValues ["x", "y"] (some "z") false = some ["x", "y"] ∧ rawValues [] (some "z") false = some ["z"] ∧
     rawValues [] none true = none := by decide
 
+/-- the server either listens on EVERY address given or does not come up: a single address that cannot be bound
+    aborts start-up (each `bind` is followed by `?` in `main`) -/
+theorem C17_listen_all_or_nothing (a : ServerArgs) (busy : List String) :
+    (∀ l, startup a busy = some l → l = a.listen ∧ ∀ x ∈ a.listen, x ∉ busy) ∧
+    (startup a busy = none ↔ ∃ x ∈ a.listen, x ∈ busy) := by
+  unfold startup
+  constructor
+  · intro l h
+    split at h
+    · cases h
+    · next hn =>
+      simp only [Option.some.injEq] at h
+      refine ⟨h.symm, fun x hx hb => hn ?_⟩
+      simp only [List.any_eq_true, List.contains_iff_mem]
+      exact ⟨x, hx, hb⟩
+  · constructor
+    · intro h
+      split at h
+      · next hy => simpa [List.any_eq_true, List.contains_iff_mem] using hy
+      · cases h
+    · rintro ⟨x, hx, hb⟩
+      rw [if_pos]
+      simp only [List.any_eq_true, List.contains_iff_mem]
+      exact ⟨x, hx, hb⟩
+
 end Tcs
